@@ -219,7 +219,10 @@ def body(ctx, c):
     def configure(ctxt):
         ctxt.setConnectionTimeout(c["conn_timeout"])
 
-    with W.World(seed=c["seed"], flavour=c["flavour"], token_pool=pool, configure=configure) as w:
+    with W.World(seed=c["seed"], flavour=c["flavour"], token_pool=pool, configure=configure, raise_starting="starting" in c["raise0"]) as w:
+        if "starting" in c["raise0"]:
+            flags.add("exception")
+            flags.add("starting-raises")
         auto = Automaton(ctx, w)
         orig_entry = w.server_entry
 
